@@ -48,7 +48,8 @@ def make_case(seed: int, tier: str, prop: str, opts=None) -> Dict[str, Any]:
             if c.get("async") is False:
                 c["async"] = True
     else:
-        sc = gen.gen_core(seed, tier, force=opts.get("force"))
+        # (None-valued events are left out: the known-finding explanation attributes values)
+        sc = gen.gen_core(seed, tier, force=dict(opts.get("force") or {}, none_values=False))
     rng = random.Random(h64(seed, "c04"))
     mli = sc["config"].get("mli", 100)
     sc["config"] = dict(BASE_CFG, mli=mli)
